@@ -81,7 +81,8 @@ theorem cz_callback {goC : GoC} (h : GoCz cid goC) {d owner react st timeouts re
     LGO cid L (bodyCallbackC goC owner react st timeouts rec s) := by
   unfold bodyCallbackC
   cases owner with
-  | probe => exact LGO.done hL
+  | probe pid =>
+    exact LGO.done ((show LG cid L 0 s from hL).sk_eq (by rw [sk_modServer_same]; intro; rfl))
   | user tok =>
     obtain ⟨hw, ⟨h1, h2, h3⟩, hdf⟩ := hpre
     exact h.tail (show Pre d s (.userCb tok react st timeouts (digest rec)) from
